@@ -466,6 +466,97 @@ fn c15(args: &[String]) {
     writeln!(out, "{}", json!({"shard_done": shard})).unwrap();
 }
 
+/// c16 --mode wire|ints|floats --in <ndjson> --out <ndjson> [--shard i --of n] [--only k] [--all-mantissas]
+fn c16(args: &[String]) {
+    let mode = arg(args, "--mode").expect("--mode");
+    let input = arg(args, "--in").expect("--in");
+    let output = arg(args, "--out").expect("--out");
+    let shard: usize = arg(args, "--shard").map(|s| s.parse().unwrap()).unwrap_or(0);
+    let of: usize = arg(args, "--of").map(|s| s.parse().unwrap()).unwrap_or(1);
+    let only: Option<usize> = arg(args, "--only").map(|s| s.parse().unwrap());
+    let all_m = args.iter().any(|a| a == "--all-mantissas");
+    let f = std::io::BufReader::new(std::fs::File::open(&input).expect("open input"));
+    let mut out = std::fs::OpenOptions::new().create(true).append(true).open(&output).expect("open output");
+    let mut vio: Vec<Value> = vec![];
+    let mut units = 0usize;
+    let mut evals = 0usize;
+    let mut st = lvh::c16::IntStats { sequences: 0, layouts: Default::default(), layout_differs: 0 };
+    writeln!(out, "{}", json!({"idx": 0, "begin": true})).unwrap();
+    let dbh = if mode == "wire" {
+        match lvh::db::open(None, &lvh::db::Cfg::default()) {
+            lvh::util::Outcome::Done(d) => Some(d),
+            o => {
+                vio.push(json!({"oracle": "machinery", "what": format!("cannot open database: {}", o.describe())}));
+                None
+            }
+        }
+    } else {
+        None
+    };
+    let mut dbh = dbh;
+    if shard == 0 && only.is_none() {
+        if mode == "ints" {
+            for xs in lvh::c16::int_extremes() {
+                if let Some(mut v) = lvh::c16::int_round_trip(&xs, &mut st) {
+                    v["case"] = json!(-1);
+                    vio.push(v);
+                }
+            }
+        }
+        if mode == "floats" {
+            vio.extend(lvh::c16::response_family());
+        }
+    }
+    let mantissas: Vec<Option<u32>> = if all_m {
+        std::iter::once(None).chain((0..=52).map(Some)).collect()
+    } else {
+        vec![None, Some(0), Some(1), Some(7), Some(23), Some(51), Some(52)]
+    };
+    for (i, line) in f.lines().enumerate() {
+        let line = line.unwrap();
+        if i % of != shard || only.map(|o| o != i).unwrap_or(false) {
+            continue;
+        }
+        units += 1;
+        let before = vio.len();
+        match mode.as_str() {
+            "wire" => {
+                let c: lvh::c16::WireCase = serde_json::from_str(&line).expect("case json");
+                let vs = lvh::c16::wire_case(&c, i, dbh.as_ref());
+                if vs.iter().any(|v| v.get("fatal").is_some()) {
+                    // the database may be unusable after a panic or a hang inside it: continue on a fresh one
+                    dbh = lvh::db::open(None, &lvh::db::Cfg::default()).done();
+                }
+                vio.extend(vs);
+            }
+            "ints" => {
+                let v: Value = serde_json::from_str(&line).expect("json");
+                let scaled: Vec<i64> = v["xs"].as_array().unwrap().iter().map(|x| x.as_i64().unwrap()).collect();
+                for xs in lvh::c16::int_sequences(&scaled) {
+                    if let Some(v) = lvh::c16::int_round_trip(&xs, &mut st) {
+                        vio.push(v);
+                    }
+                }
+            }
+            "floats" => {
+                let v: Value = serde_json::from_str(&line).expect("json");
+                let cl: Vec<usize> = v["fs"].as_array().unwrap().iter().map(|x| x.as_u64().unwrap() as usize).collect();
+                vio.extend(lvh::c16::floats_case(&cl, &mantissas, &mut evals));
+            }
+            _ => panic!("mode"),
+        }
+        for v in vio[before..].iter_mut() {
+            v["case"] = json!(i);
+            v["panics"] = json!(lvh::util::take_panics());
+        }
+        if vio.len() > 200 {
+            break;
+        }
+    }
+    writeln!(out, "{}", json!({"idx": 0, "units": units, "evals": evals, "sequences": st.sequences, "layouts": st.layouts, "layout_differs": st.layout_differs, "violations": vio})).unwrap();
+    writeln!(out, "{}", json!({"shard_done": shard})).unwrap();
+}
+
 /// c14 --out <ndjson> [--all-bits] [--no-db]
 fn c14(args: &[String]) {
     let output = arg(args, "--out").expect("--out");
@@ -496,6 +587,7 @@ fn main() {
         Some("sqlc") => sqlc(&args[2..]),
         Some("c15") => c15(&args[2..]),
         Some("c14") => c14(&args[2..]),
+        Some("c16") => c16(&args[2..]),
         Some("record-stress") => record_stress(&args[2..]),
         _ => {
             eprintln!("usage: lvh <replay-hist> ...");
